@@ -342,6 +342,22 @@ theorem step_nodes_inv (s : State) (op : Op) (h : LInvS s) (y : Res State) (e : 
   | aget v i => exact liftA_inv s v _ h y (ite_some e)
   | afront v => exact liftA_inv s v _ h y (ite_some e)
   | aback v => exact liftA_inv s v _ h y (ite_some e)
+  | lappendself v =>
+    exact liftL_inv s v _ h (map_noRet_inv _ (fun r hr => insertList_inv _ _ _ (linvS_getL s v h) r hr)) y (ite_some e)
+  | lprependself v =>
+    exact liftL_inv s v _ h (map_noRet_inv _ (fun r hr => insertList_inv _ _ _ (linvS_getL s v h) r hr)) y (ite_some e)
+  | linsertself v pos => exact liftL_inv s v _ h (fun r hr => insertList_inv _ _ _ (linvS_getL s v h) r hr) y (ite_some e)
+  | lassignself v =>
+    have := ite_some e
+    simp only [Option.some.injEq] at this
+    rw [← this]; exact h
+  | aappendself v => exact liftA_inv s v _ h y (ite_some e)
+  | aappendref v i => exact liftA_inv s v _ h y (ite_some e)
+  | aresizeref v n i => exact liftA_inv s v _ h y (ite_some e)
+  | aassignself v =>
+    have := ite_some e
+    simp only [Option.some.injEq] at this
+    rw [← this]; exact h
   | aeq v w =>
     have := ite_some e
     simp only [Option.some.injEq] at this
